@@ -22,7 +22,16 @@ def _elem(e):
     if k == "n":
         return netaddr.IPNetwork((e[2], e[3]), version=e[1])
     if k == "s":
-        return str(netaddr.IPNetwork((e[2], e[3]), version=e[1]))
+        n = netaddr.IPNetwork((e[2], e[3]), version=e[1])
+        w = 32 if e[1] == 4 else 128
+        # the same network as text: CIDR, address/netmask or (prefix strictly inside 0..width) address/hostmask,
+        # chosen from the content
+        form = zlib.crc32(repr(e).encode()) % 4
+        if form == 1:
+            return "%s/%s" % (netaddr.IPAddress(e[2], e[1]), netaddr.IPAddress((1 << w) - (1 << (w - e[3])), e[1]))
+        if form == 2 and 0 < e[3] < w:
+            return "%s/%s" % (netaddr.IPAddress(e[2], e[1]), netaddr.IPAddress((1 << (w - e[3])) - 1, e[1]))
+        return str(n)
     if k == "r":
         return netaddr.IPRange(netaddr.IPAddress(e[2], e[1]), netaddr.IPAddress(e[3], e[1]))
     if k == "g":
